@@ -155,6 +155,7 @@ ADDED["C12"] += " One program in six ends in limit(n) behind the loop: exactly m
 ADDED["C16"] = " Marker-byte cases: every identifier role x byte next to the key separator or at the end of the control range (0x01, 0x02, 0x1f, 0x7f) x position (trailing, leading, alone), with a replacement of the written edge."
 ADDED["C20"] += " The client string as an id while a label filter is appended to the same statement, and in both positions at once; format-verb strings."
 ADDED["C06"] += " The populated fixture carries a field with magnitudes far apart (-1e17, 5, 1e17, 0.5) that every field-taking statement is run on."
+ADDED["C05"] += " TestConcurrentEnforce: goroutines of different users ask one policy object for every (user, graph, class) triple at once; each answer must equal the sequential one."
 for _k, _v in ADDED.items():
     CHECKS[_k]["text"] += _v
 NOT_YET = "check not built yet in this session (planned in DESIGN.md §3); not claimed"
